@@ -116,6 +116,16 @@ func (s *Store) CreateSavepoint(operatorIDs, sourceRunnerIDs []string) (cpID uin
 	return s.state.checkpointID, true, nil
 }
 
+// AbortPendingCheckpoint drops a job checkpoint that is still waiting for
+// acknowledgements. It is used when the assembly that was taking it is gone:
+// those acknowledgements will never arrive and the checkpoint would otherwise
+// block every later one.
+func (s *Store) AbortPendingCheckpoint() {
+	s.stateMu.Lock()
+	defer s.stateMu.Unlock()
+	s.state.pendingSnapshot = nil
+}
+
 func (s *Store) AddOperatorSnapshot(req *snapshotpb.OperatorCheckpoint) error {
 	s.stateMu.Lock()
 	defer s.stateMu.Unlock()
